@@ -56,6 +56,71 @@ FMTS = ['"###.##"', '"**$##,.##^^^^"', '"\\  \\"', '"!&_"', '"+#-"', 'STRING$(40
         '"abc"', '"\\"', 'CHR$(0)', '"##"+CHR$(0)+"##"', '"-#"', '"#-+"', '"**$$##"', '"_#"', '"###^^^^^"']
 DEVS = ['"SCRN:"', '"KYBD:"', '"LPT1:"', '"LPT2:"', '"LPT3:"', '"COM1:"', '"COM2:"', '"CAS1:"', '"A:"', '"Z:"',
         '"@:"']
+
+
+def spec_pool(sep):
+    """
+    Boundary strings (as BASIC string expressions) for arguments of the form name<sep>value:
+    empty name, empty value, only the separator, separator first/last/doubled, no separator,
+    NUL and high bytes on either side, 254-byte halves.
+    """
+    def lit(text):
+        return '"%s"' % text
+    halves = [('', '""'), ('a', lit('a')), ('PATH', lit('PATH')), (' ', lit(' ')), ('nul', 'CHR$(0)'),
+              ('hi', 'CHR$(255)'), ('long', 'STRING$(254,"N")'), ('a-nul', '"a"+CHR$(0)'),
+              ('hi-a', 'CHR$(255)+"a"'), ('quote', 'CHR$(34)')]
+    sepx = lit(sep)
+    out = []
+    for _, n in halves:
+        for _, v in halves:
+            parts = [x for x in (n, sepx, v) if x != '""']
+            out.append('+'.join(parts))
+    for _, n in halves:
+        parts = [x for x in (n,) if x != '""']
+        out.append('+'.join(parts + [sepx, sepx]) if parts else lit(sep + sep))       # doubled, last
+        out.append('+'.join([sepx, sepx] + parts))                                   # doubled, first
+        out.append('+'.join(parts + [sepx, lit('b'), sepx, lit('c')]))               # two separators
+        out.append('+'.join(parts) if parts else '""')                               # no separator
+    # merge adjacent plain literals: "a"+"="+"b" -> "a=b" (shorter lines, same value)
+    merged = []
+    for e in out:
+        while True:
+            e2 = re.sub(r'"([^"]*)"\+"([^"]*)"', r'"\1\2"', e)
+            if e2 == e:
+                break
+            e = e2
+        merged.append(e)
+    seen = []
+    for e in merged:
+        if e not in seen:
+            seen.append(e)
+    return seen
+
+
+# statements taking a name<sep>value / spec string, with the separator that matters to them
+SPEC_STATEMENTS = [
+    ('=', 'ENVIRON {x}'), ('=', 'PRINT ENVIRON$({x})'), ('=', 'KEY 1,{x}'), ('=', 'KEY 15,{x}'),
+    ('=', 'PLAY {x}'), ('=', 'PLAY "T"+{x}+";"'), ('=', 'DRAW {x}'), ('=', 'DRAW "U"+{x}+";"'),
+    ('=', 'SHELL {x}'),
+    (':', 'OPEN {x} FOR OUTPUT AS 1:CLOSE'), (':', 'OPEN "O",1,{x}:CLOSE'), (':', 'OPEN {x} AS 1:CLOSE'),
+    (':', 'OPEN "COM1"+{x} AS 1:CLOSE'), (':', 'NAME {x} AS "T1"'), (':', 'NAME "F.TXT" AS {x}'),
+    (':', 'CHDIR {x}'), (':', 'MKDIR {x}'), (':', 'RMDIR {x}'), (':', 'KILL {x}'), (':', 'FILES {x}'),
+    (':', 'LOAD {x}'), (':', 'SAVE {x}'), (':', 'BLOAD {x}'), (':', 'WIDTH {x},80'), (':', 'TIME$={x}'),
+    ('-', 'DATE$={x}'), ('/', 'DATE$={x}'), ('\\', 'CHDIR {x}'), ('\\', 'OPEN {x} FOR INPUT AS 1:CLOSE'),
+    ('.', 'OPEN {x} FOR OUTPUT AS 1:CLOSE'), (',', 'OPEN "COM1:"+{x} AS 1:CLOSE'),
+    (';', 'PLAY "L4C"+{x}'), (';', 'DRAW "U1"+{x}'), ('#', 'PRINT USING {x};1'), (',', 'PRINT USING {x};1;"s"'),
+]
+
+
+def spec_statements():
+    """All (statement, separator) x spec_pool(separator) expansions, in a fixed order."""
+    out = []
+    for sep, tmpl in SPEC_STATEMENTS:
+        for x in spec_pool(sep):
+            out.append(tmpl.replace('{x}', x)[:250])
+    return out
+
+
 NUMVARS = ['A', 'B!', 'C#', 'I%', 'R(1)', 'R%(2)', 'D#(0)', 'J', 'K']
 STRVARS = ['S$', 'T$', 'Q$(0)', 'X$', 'Y$']
 LINES = ['10', '20', '30', '40', '50', '100', '0', '65529', '65530', '65535', '1', '5']
@@ -174,6 +239,13 @@ KEYWORDS = sorted(set(re.findall(r'[A-Z]+\$?', ' '.join(STATEMENTS + NUMFUNCS + 
     'TA', 'BM', 'PATH', 'PSET', 'MB', 'MBO', 'CDE', 'H', 'HFFFF', 'O', 'E', 'Z'} | {'PSET', 'USING', 'TAB',
     'SPC', 'STEP', 'THEN', 'ELSE', 'TO', 'AS', 'BASE', 'SEG', 'ALL', 'ACCESS', 'SHARED', 'FN', 'USR'})
 
+
+ENVS = ENVS + spec_pool('=')
+FNAMES = FNAMES + spec_pool(':')[::3] + spec_pool('\\')[::5] + spec_pool('.')[::5]
+MMLS = MMLS + ['"T"+' + x + '+";"' for x in spec_pool('=')[::4]]
+GMLS = GMLS + ['"U"+' + x + '+";"' for x in spec_pool('=')[::4]]
+TIMES = TIMES + spec_pool(':')[::4]
+DATES = DATES + spec_pool('-')[::4]
 
 SPECIFIC = {'dv': DEVS, 'tm': TIMES, 'dt': DATES, 'env': ENVS, 'fn': FNAMES, 'mml': MMLS, 'gml': GMLS, 'fmt': FMTS}
 
